@@ -49,7 +49,10 @@ func main() {
 			fmt.Printf("var  %-22s %-26s %s sync=%v %s\n", v.Pkg, v.Name, v.Type, v.Sync, v.Pos)
 		}
 		for _, a := range f.Accs {
-			fmt.Printf("acc  %-22s %s.%s %s %s in %s at %s sync=%v locked=%v\n", a.Pkg, a.Var, a.Path, a.Kind, a.Meth, a.Func, a.Pos, a.Sync, a.Locked)
+			fmt.Printf("acc  %-22s %s.%s %s %s in %s at %s sync=%v locked=%v %s\n", a.Pkg, a.Var, a.Path, a.Kind, a.Meth, a.Func, a.Pos, a.Sync, a.Locked, a.Via)
+		}
+		for _, c := range f.CalledLocked {
+			fmt.Println("called-with-lock-held:", c)
 		}
 	}
 	bad := f.Offending()
